@@ -140,6 +140,9 @@ func runC15(c *Ctx) {
 		ruleGrowByAppend(c, p, "C15.fresh")
 		ruleReaderSource(c, p, "C15.source")
 	}
+	if pd != nil {
+		ruleWriterInvariant(c, pd, "C15.writer")
+	}
 	c.R.Assumptions = append(c.R.Assumptions,
 		"the unsafe variants reinterpret []T as []byte on little-endian targets only (build constraint), so memory layout = wire layout there",
 		"decided: both variants exist and type-check, same wire shape, element width = in-memory size, little-endian accessors with field offsets equal to the in-memory layout, same rejections, same treatment of prior buffer contents, columns grow only by append; not decided: identical results on all inputs beyond these conditions; decoding into a non-empty column is outside the property")
@@ -495,6 +498,8 @@ func ruleValidationLoops(c *Ctx, p *core.Program, rule string) {
 			return false, false
 		})
 		nth := 0
+		var partial []string
+		full0 := n
 		for _, h := range uniqBlocks(headers) {
 			// only loops without wire reads in their body (reads fail on their own account)
 			reads := false
@@ -511,6 +516,12 @@ func ruleValidationLoops(c *Ctx, p *core.Program, rule string) {
 			if reads {
 				continue
 			}
+			// the validating loop must visit every element: a counted loop with a stride, or a range over
+			// a sub-slice, leaves elements unchecked (e.g. the tail when the stride does not divide the length)
+			if why := partialLoop(h); why != "" {
+				partial = append(partial, why)
+				continue
+			}
 			n++
 			nth++
 			key := sprintf("%s.DecodeColumn/loop#%d", ct.Obj().Name(), nth)
@@ -524,8 +535,47 @@ func ruleValidationLoops(c *Ctx, p *core.Program, rule string) {
 				c.R.Ok(rule, key, cfg, p.Pos(h.Instrs[0].Pos()), "every success exit passes the validation loop")
 			}
 		}
+		if n == full0 && len(partial) > 0 {
+			c.R.Bad(rule, ct.Obj().Name()+".DecodeColumn/coverage", cfg, p.Pos(fn.Pos()), "the decoder validates elements only in loops that do not visit every element ("+strings.Join(partial, "; ")+"): the elements in between / in the tail are accepted unchecked")
+		}
 	}
 	c.R.Count("validation loops["+cfg+"]", n)
+}
+
+// partialLoop explains why the loop headed by h does not visit every element of a slice, or "".
+func partialLoop(h *ssa.BasicBlock) string {
+	for _, in := range h.Instrs {
+		ph, ok := in.(*ssa.Phi)
+		if !ok {
+			break
+		}
+		for _, e := range ph.Edges {
+			bo, ok := e.(*ssa.BinOp)
+			if !ok || bo.X != ssa.Value(ph) || bo.Op != token.ADD {
+				continue
+			}
+			if k, okc := core.ConstInt(bo.Y); okc && k != 1 {
+				return sprintf("it advances by %d elements per iteration", k)
+			}
+		}
+	}
+	// a range over a proper sub-slice
+	if ifi, ok := h.Instrs[len(h.Instrs)-1].(*ssa.If); ok {
+		if bo, ok := ifi.Cond.(*ssa.BinOp); ok {
+			for _, side := range []ssa.Value{bo.X, bo.Y} {
+				if cl, ok := side.(*ssa.Call); ok {
+					if bi, ok := cl.Call.Value.(*ssa.Builtin); ok && bi.Name() == "len" {
+						if sl, ok := cl.Call.Args[0].(*ssa.Slice); ok && (sl.Low != nil || sl.High != nil) {
+							if _, fresh := sl.X.(*ssa.Alloc); !fresh {
+								return "it ranges over a sub-slice of the data"
+							}
+						}
+					}
+				}
+			}
+		}
+	}
+	return ""
 }
 
 func uniqBlocks(bs []*ssa.BasicBlock) []*ssa.BasicBlock {
